@@ -298,6 +298,12 @@ func checkC04(c *Ctx) {
 	c.Expect("R3", 3)
 	c.Expect("R5", 5)
 	checkSlotFill(c, "R6")
+	c.Rule("R7", "errors only while the owner is unreachable: a finished connect attempt is not cached (shared with C07.R1), so a node that is back on its address is dialled again")
+	if calls := p.Field(redisPkg, "upstream", "createClientCalls"); calls != nil {
+		checkSingleflightEntry(c, "R7", calls)
+	} else {
+		c.Unresolved("R7", "upstream.createClientCalls")
+	}
 
 	// ---------------- R4
 	e := runOwn(c)
